@@ -68,7 +68,7 @@ def gen_defn(rng, kind):
         return gen.contractive_program(rng, n_state=(1, 2), n_control=(1, 2), n_calib=(0, 1),
                                        n_sensor=(1, 1), n_reading=(1, 2), depth=1, n_shared=(0, 1))
     return gen.contractive_program(rng, n_state=(1, 4), n_control=(0, 3), n_calib=(0, 2),
-                                   n_sensor=(1, 2), n_reading=(1, 3), depth=2)
+                                   n_sensor=(1, 2), n_reading=(1, 3), depth=1, n_shared=(0, 1))
 
 
 def run_unit(unit, ctx):
